@@ -3,9 +3,10 @@
 //
 //   - per source file, in source order, every error value constructed with errorchain.New / NewWithMessage /
 //     NewWithMessagef(...).CausedBy(...)... as the list of its elements (a heimdall sentinel or "dyn" for any other
-//     expression);
-//   - per source file, how often heimdall.ErrArgument is mentioned at all, and how many CausedBy calls are not part
-//     of such a constructor expression;
+//     expression), separately for the entry method (Execute / GetAuthData: where credentials are looked for and
+//     missing ones are reported) and for the rest of the file (everything that runs after a credential was found);
+//   - per source file, how often heimdall.ErrArgument is mentioned at all, and the arguments of the CausedBy calls
+//     that are not part of such a constructor expression;
 //   - the condition under which compositeSubjectCreator.Execute goes on to the next authenticator, and the shape of
 //     its loop.
 //
@@ -152,9 +153,10 @@ func chainOf(call *ast.CallExpr, inner map[*ast.CallExpr]bool) ([]string, bool) 
 }
 
 type fileFacts struct {
-	sites    [][]string
-	argument int // mentions of heimdall.ErrArgument
-	loose    int // CausedBy calls outside constructor expressions
+	entry    [][]string // constructor expressions inside the entry method (Execute / GetAuthData), in source order
+	others   [][]string // all other constructor expressions of the file, in source order
+	argument int        // mentions of heimdall.ErrArgument
+	loose    []string   // arguments of CausedBy calls outside constructor expressions
 }
 
 func parse(path string) *ast.File {
@@ -166,42 +168,66 @@ func parse(path string) *ast.File {
 	return f
 }
 
+// the methods in which an authenticator / extractor looks for credentials and reports that there are none
+func isEntry(d ast.Decl) bool {
+	fd, ok := d.(*ast.FuncDecl)
+
+	return ok && fd.Recv != nil && (fd.Name.Name == "Execute" || fd.Name.Name == "GetAuthData")
+}
+
 func factsOf(path string) fileFacts {
 	f := parse(path)
 	ff := fileFacts{}
 	inner := map[*ast.CallExpr]bool{}
 	accounted := 0
 
-	ast.Inspect(f, func(n ast.Node) bool {
-		switch v := n.(type) {
-		case *ast.CallExpr:
-			if inner[v] {
-				return true
-			}
+	for _, decl := range f.Decls {
+		entry := isEntry(decl)
 
-			if els, ok := chainOf(v, inner); ok {
-				ff.sites = append(ff.sites, els)
+		ast.Inspect(decl, func(n ast.Node) bool {
+			switch v := n.(type) {
+			case *ast.CallExpr:
+				if inner[v] {
+					return true
+				}
 
-				for _, e := range els {
+				if els, ok := chainOf(v, inner); ok {
+					if entry {
+						ff.entry = append(ff.entry, els)
+					} else {
+						ff.others = append(ff.others, els)
+					}
+
+					for _, e := range els {
+						if e == ".k .argument" {
+							accounted++
+						}
+					}
+
+					return true
+				}
+
+				if sel, ok := v.Fun.(*ast.SelectorExpr); ok && sel.Sel.Name == "CausedBy" {
+					if len(v.Args) != 1 {
+						fail(v, "CausedBy with %d arguments", len(v.Args))
+					}
+
+					e := elem(v.Args[0])
 					if e == ".k .argument" {
 						accounted++
 					}
+
+					ff.loose = append(ff.loose, e)
 				}
-
-				return true
+			case *ast.SelectorExpr:
+				if k, ok := sentinel(v); ok && k == "argument" {
+					ff.argument++
+				}
 			}
 
-			if sel, ok := v.Fun.(*ast.SelectorExpr); ok && sel.Sel.Name == "CausedBy" {
-				ff.loose++
-			}
-		case *ast.SelectorExpr:
-			if k, ok := sentinel(v); ok && k == "argument" {
-				ff.argument++
-			}
-		}
-
-		return true
-	})
+			return true
+		})
+	}
 
 	if accounted != ff.argument {
 		fail(f, "%s: heimdall.ErrArgument is mentioned %d times, but only %d times inside an error chain constructor",
@@ -512,8 +538,8 @@ func main() {
 		path := filepath.Join(adir, n.file)
 		known[path] = true
 		ff := factsOf(path)
-		fmt.Fprintf(&out, "/-- `%s` -/\ndef %s : FileFacts :=\n  { sites := %s,\n    looseCausedBy := %d }\n\n",
-			n.file, n.lean, leanSites(ff.sites), ff.loose)
+		fmt.Fprintf(&out, "/-- `%s` -/\ndef %s : FileFacts :=\n  { entry := %s,\n    others := %s,\n    loose := %s }\n\n",
+			n.file, n.lean, leanSites(ff.entry), leanSites(ff.others), leanList(ff.loose))
 	}
 
 	// every other non-test source file of the packages the authenticators call into: mentions of ErrArgument
